@@ -14,15 +14,17 @@ def _load(pid):
 # division by zero / overflow located in /repo code, or in the harness on data the code produced)
 # and assertions named "C03: ..." are counted here.
 PICK = {
-    "C08": r"^(op_DivOp|op_ModOp|op_BitMirrorOp|op_ShLeftOp|fn_FuncCHARFROMSTR|fn_FuncSTRLEN|fn_FuncBITPOS|pars_SingleBit)$",
+    "C08": r"^(op_DivOp|op_ModOp|op_BitMirrorOp|op_ShLeftOp|fn_FuncCHARFROMSTR|fn_FuncSTRLEN|fn_FuncBITPOS|pars_SingleBit|fn_FuncSUBSTR_safe)$",
     "C12": r"^(if_CodeELSECASE|if_CodeCASE|if_CodeENDIF|if_CodeENDCASE|if_CodeIFB|if_RestoreIFs|ifs_other)$",
     "C10": r"^(pc_CodeALIGN_1|pc_CodeALIGN_2|pc_CodeDEPHASE|pc_SetNSeg)$",
     "C09": r"^(mot_Enter.*|ieee_Double_2_ieee2|ieee_Double_2_ieee10)$",
-    "C07": r"^(tu_SkipRecord|tu_ReadRecordHeader|tu_FilterOK)$",
+    "C07": r"^(tu_SkipRecord|tu_ReadRecordHeader|tu_FilterOK|pl_ProcessSingle_data_g0|pl_ProcessSingle_data_g1)$",
     "C04": r"^(cf_WriteBytes_fit_new_g2|cf_WriteBytes_overflow_g2|cf_NewRecord_full|cf_CloseFile|as_WriteCode)$",
     "C02": r"^(err_WrXErrorPos|err_CodeENDEXPECT)$",
     "C13": r"^(sym_SymbolAdder|sym_FindNode)$",
-    "C11": r"^(rep_IRP_step)$",
+    "C11": r"^(rep_IRP_step|rep_IRP_Cleanup_twice|rep_IRPN_count)$",
+    "C05": r"^(pb_ProcessFile_data_g2|pb_MeasureFile|pb_OpenTarget_g1_ALL)$",
+    "C14": r"^(i4004_DecodeOneRReg|i4004_DecodeJCN)$",
 }
 import re
 GROUPS = []
@@ -38,8 +40,8 @@ def OBLIGATION_FILTER(o):
 
 TRUSTED_BASE = ["the stubs of the groups reused (see the evidence of C02, C04, C07, C08, C09, C10, C11, C12, C13)"]
 ASSUMPTIONS = ["preconditions of each function are the weakest its call sites give (file contents arbitrary bytes, expression values arbitrary within type)"]
-NOT_COVERED = ["whole-program robustness (parsers SplitLine/EvalStrExpression/ExpandMacro, ~100 code generators)", "plist.c, p2bin.c, p2hex.c, alink.c, das.c record handling",
-               "IRPN with non-positive group size (observed hang, not under contract)", "substr with negative start"]
+NOT_COVERED = ["whole-program robustness (parsers SplitLine/EvalStrExpression/ExpandMacro, ~100 code generators)", "p2hex.c (bounded check only, see C06), alink.c, das.c record handling",
+               "termination of WHILE / recursive macros (excluded by the property)"]
 EXPLANATION = ("Contracts cannot decide 'for every byte sequence the program exits normally'. Claimed: for every function under contract listed in the "
                "evidence, all executions from states satisfying its precondition are free of invalid/out-of-bounds dereference, division by zero, "
                "trapping division overflow, and (record loops) backwards movement in the input. Obligations counted are CBMC's built-in checks "
